@@ -42,6 +42,7 @@ def _case(draw, focus, tier="quick"):
             "wells": wsel(max_n=6),
             "vols": vsel(vs_ok(q), max_n=6),
             "label": label_st,
+            "ints": st.booleans(),
         }
     )
     # a genuinely 2-D call: >= 2x2 wells with pairwise different volumes given as a 2-D array or as a flat list
@@ -56,6 +57,7 @@ def _case(draw, focus, tier="quick"):
             ),
             "vols": st.fixed_dictionaries({"t": st.sampled_from(["grid", "grid", "list"]), "v": st.lists(small, min_size=6, max_size=6, unique=True)}),
             "label": label_st,
+            "ints": st.booleans(),
         }
     )
     op = st.one_of(op_any, op_any, op_2d)
